@@ -1,7 +1,7 @@
 (* Driver of the extracted SqlAst model (C14, C16).  Reads correspondence cases, one per line, from the
    file named on the command line; byte strings are hex text ("-" = empty):
 
-     sql hdr kind code name exec|! nchecked (db m)* nreads (db m)* nexisting (db m)*
+     fixbits sql hdr kind code name exec|! nchecked (db m)* nreads (db m)* nexisting (db m)*
 
    ("!" = nothing was executed).  Evaluates Arc.SqlAst.Model.read_case_flags (extracted with
    ExtrOcamlBasic only; N/positive stay Coq datatypes) and prints the bit mask as a decimal number, one
@@ -37,7 +37,7 @@ let () =
        let line = input_line ic in
        let f = Array.of_list (Stdlib.String.split_on_char ' ' line) in
        let h i = bytes_of_hex f.(i) in
-       let pos = ref 6 in
+       let pos = ref 7 in
        let refs () =
          let n = int_of_string f.(!pos) in
          let l = List.init n (fun k -> (h (!pos + 1 + 2 * k), h (!pos + 2 + 2 * k))) in
@@ -46,8 +46,9 @@ let () =
        let checked = refs () in
        let reads = refs () in
        let existing = refs () in
-       let g = { g_sql = h 0; g_hdr = h 1; g_kind = n_of_int (int_of_string f.(2)); g_code = n_of_int (int_of_string f.(3));
-                 g_name = h 4; g_checked = checked; g_exec = (if f.(5) = "!" then None else Some (h 5)) } in
+       let g = { g_fix = n_of_int (int_of_string f.(0)); g_sql = h 1; g_hdr = h 2; g_kind = n_of_int (int_of_string f.(3));
+                 g_code = n_of_int (int_of_string f.(4)); g_name = h 5; g_checked = checked;
+                 g_exec = (if f.(6) = "!" then None else Some (h 6)) } in
        let c = { r_gate = g; r_reads = reads; r_existing = existing } in
        Buffer.add_string out (string_of_int (int_of_n (read_case_flags c)));
        Buffer.add_char out '\n'
